@@ -1,6 +1,6 @@
 """C06 loading arbitrary XML is safe (structural necessary conditions)."""
 from prog import Program
-import nullness, cap, progloops, snp, guards, linkfree, union, enumstore, precond
+import nullness, cap, progloops, snp, guards, linkfree, union, enumstore, precond, uaf
 
 XML_UNITS = ["topology-xml.c", "topology-xml-nolibxml.c", "topology-xml-libxml.c"]
 
@@ -50,10 +50,14 @@ def run(chk, tier):
     chk.rule("R-UNION", "the type-specific attribute union obj->attr is accessed only under a matching obj->type: every self-discriminating function is explored once per object type (21 values, product for two objects) by seeded constant propagation; guards are evaluated, not pattern-matched")
     nun, nuf = union.run(chk, P, units=('topology-xml.c',))
     chk.floor("R-UNION", "union accesses judged", nun, 60)
+    chk.rule("R-UAF", "no use of a pointer after it was released: may-dataflow on released lvalues (free, hwloc_bitmap_free, hwloc_free_unlinked_object, closedir, ...), killed by re-assignment, with a correlated-condition path search and whole-program constant fields to discard infeasible paths")
+    nua = uaf.run(chk, P, units=('topology-xml.c', 'topology-xml-nolibxml.c', 'topology-xml-libxml.c', 'diff.c'))
+    chk.floor("R-UAF", "release sites examined", nua, 40)
     chk.rule("R-LINKFREE", "an object handed to an insertion function (which links, merges-and-frees or frees it) is never released afterwards by its creator: no feasible path from an insertion of x to hwloc_free_unlinked_object(x) (may-dataflow + correlated-condition path search)")
     nlf = linkfree.run(chk, P, units=("topology-xml.c",))
     chk.floor("R-LINKFREE", "release sites in the XML import code", nlf, 2)
-    chk.decided += ["a failed hwloc_topology_load() does not leave the topology in the LOADING state (it can be configured and loaded again)",
+    chk.decided += ['the XML import/diff code never uses a pointer after releasing it (failure paths included)',
+                    "a failed hwloc_topology_load() does not leave the topology in the LOADING state (it can be configured and loaded again)",
                     "assertions on scalar parameters of functions called by the XML import cannot fail on values taken from the file (memattr ids)",
                     "enum-typed object attributes read from XML hold an enumerator (cache type, bridge upstream/downstream type): consumers that assert on them cannot abort",
                     "attributes read from XML are stored into the union member that matches the object's type (no type confusion between cache/numanode/group/pcidev/bridge/osdev attributes)",
